@@ -4,6 +4,8 @@
   T-b  constant operation flags            ->  a table               (Gen/Flags.lean)
   T-c  dataclass schema (frozen/eq/hash)   ->  a table               (Gen/Schema.lean)
   T-d  the relation-name f-string          ->  a list of parts       (Gen/Names.lean)
+  T-e  commute / simplify / _begin_apply of the operation classes -> Lean functions over the model's
+       own types, through a typed dictionary (harness/extract_ops.py) (Gen/Ops.lean)
 
 Files are rewritten only when their content changes (so `lake build` stays incremental).
 A method that no longer fits the accepted grammar is reported on stdout as
@@ -381,7 +383,15 @@ def write_if_changed(path: str, content: str) -> bool:
 
 def main() -> None:
     changed = []
-    for name, gen in (("Kernel", gen_kernel), ("Flags", gen_flags), ("Schema", gen_schema), ("Names", gen_names)):
+    import extract_ops
+
+    def gen_ops_file() -> str:
+        return ("set_option linter.unusedVariables false\n" + extract_ops.gen_ops(PROBLEMS)).replace(
+            "set_option linter.unusedVariables false\n/- GENERATED", "/- GENERATED", 1).replace(
+            "import DafRel.Gen.OpsSupport\n", "import DafRel.Gen.OpsSupport\n\nset_option linter.unusedVariables false\n", 1)
+
+    for name, gen in (("Kernel", gen_kernel), ("Flags", gen_flags), ("Schema", gen_schema), ("Names", gen_names),
+                      ("Ops", gen_ops_file)):
         try:
             content = gen()
         except Exception as e:  # noqa: BLE001
